@@ -363,6 +363,7 @@ prop("C18", "c18",
      [dict(run="^TestFileSystemProviderConverges$", quick=300, thorough=3000, shards_thorough=4),
       dict(run="^TestHTTPEndpointProviderConverges$", quick=300, thorough=3000, shards_thorough=4),
       dict(run="^TestCloudBlobProviderConverges$", quick=200, thorough=2000, shards_thorough=4),
+      dict(run="^TestCloudBlobSingleObjectConverges$", quick=200, thorough=2000, shards_thorough=2),
       dict(run="^TestKubernetesProviderConverges$", quick=300, thorough=3000, shards_thorough=4)],
      ["client-go's informer machinery, real inotify timing, real S3/GCS/Azure and gocron scheduling are outside the harness: "
       "events and polls are delivered synchronously", "cloud blob: a poll that meets an undecodable or rejected object is don't-care for the other objects of that poll",
